@@ -421,6 +421,7 @@ func (g *gen) setup() {
 		g.addCol(genCol{"kr", "record", ""})
 		g.addCol(genCol{"ks", "string", ""})
 		g.addCol(genCol{"kn", "int32", ""})
+		g.addCol(genCol{"k16", "int16", ""})
 	}
 	// filter profile: an enum column that only every other row holds (a filter that forgets the presence list is
 	// caught by the rows without a value sitting next to rows with the same interned value)
@@ -516,7 +517,7 @@ func (g *gen) setup() {
 				tid := fmt.Sprintf("v%d", g.nTxn)
 				g.emit("p begin " + tid)
 				for i, o := range offs {
-					g.emit(fmt.Sprintf("p %s at %s set:ke:%s bool:kb:%d set:kr:%s set:ks:%s set:kn:%08x", tid, o, g.enumValue(), i%2, g.recValue(), g.strValue(false), uint32(i+1)))
+					g.emit(fmt.Sprintf("p %s at %s set:ke:%s bool:kb:%d set:kr:%s set:ks:%s set:kn:%08x set:k16:%04x", tid, o, g.enumValue(), i%2, g.recValue(), g.strValue(false), uint32(i+1), uint16(100+i)))
 				}
 				g.emit("p commit " + tid)
 				g.feat("all-kinds-far-rows")
@@ -1295,6 +1296,21 @@ func (g *gen) snapshotCycle() {
 				if a := g.actionsAt(off, 1+g.r.Intn(2)); a != "" {
 					g.emit(strings.TrimRight(fmt.Sprintf("p %s at %d %s", tid, off, a), " "))
 				}
+			}
+		}
+		// every numeric width merges through its own Swap function: the 16- and 32-bit columns of the all-kinds
+		// schema get a merge on a row that holds a value (beyond the first chunk when there is one)
+		for _, cn := range []string{"k16", "kn"} {
+			var cand []uint32
+			for _, o := range g.liveList() {
+				if g.hasVal[o][cn] && !g.txnSet[fmt.Sprintf("%d|%s", o, cn)] {
+					cand = append(cand, o)
+				}
+			}
+			if len(cand) > 0 {
+				o := cand[len(cand)-1]
+				w := map[string]string{"k16": "0003", "kn": "00000005"}[cn]
+				g.emit(fmt.Sprintf("p %s at %d merge:%s:%s", tid, o, cn, w))
 			}
 		}
 		g.emit("p snapshot s with " + tid)
